@@ -12,6 +12,8 @@ import SpsdkVerif.Proofs.Rkht
 import SpsdkVerif.Proofs.CertBlock
 import SpsdkVerif.Proofs.CertBlockRom
 import SpsdkVerif.Proofs.HabSrk
+import SpsdkVerif.Proofs.CertBlockCanon
+import SpsdkVerif.Proofs.CertBlockSb2
 
 namespace SpsdkVerif.C03
 open SpsdkVerif SpsdkVerif.Spec SpsdkVerif.Rkht SpsdkVerif.CertBlock
@@ -285,6 +287,72 @@ theorem hab_ecc_item_roundtrip (cv : Curve) (x y : Nat) (ca : Bool) (hx : x < 25
 
 /-- non-vacuity: a short X (leading zero bytes) and a full-width Y on P-521 -/
 example : (7 : Nat) < 256 ^ Curve.p521.coordSize ∧ (2 ^ 250 * 2 ^ 250 * 2 ^ 20 + 1 : Nat) < 256 ^ Curve.p521.coordSize := by decide +kernel
+
+def eccEx' (cv : Curve) (d : Nat) : Key := .ecc cv (7 + d) (11 + d)
+
+/-! ## 2c. One generated RoT-type table: every database row dispatches to a path that computes the documented value (phase 3) -/
+
+theorem rotType_ofName_name (s : String) (t : RotType) (h : RotType.ofName? s = some t) : t.name = s := by
+  unfold RotType.ofName? at h
+  split at h
+  next hs => cases h; exact (eq_of_beq hs).symm
+  next =>
+    split at h
+    next hs => cases h; exact (eq_of_beq hs).symm
+    next =>
+      split at h
+      next hs => cases h; exact (eq_of_beq hs).symm
+      next =>
+        split at h
+        next hs => cases h; exact (eq_of_beq hs).symm
+        next =>
+          split at h
+          next hs => cases h; exact (eq_of_beq hs).symm
+          next => cases h
+
+/-- SRK-table types (AHAB v1 / v2, HAB) with the CA flag the records carry: `Rot(...).calculate_hash()` is `Spec.rotkhCa` of the type named by
+    the database string, the ordered key list and the record flags - nothing else enters (AHAB refuses tables with mixed flags) -/
+theorem path_rot_srk_eq_spec (hc : CryptoLaws c) (t : RotType) (ht : t = .srkTableAhab ∨ t = .srkTableAhabV2 ∨ t = .srkTableHab)
+    (kcs : List (Key × Bool)) (h : KeysOK t (kcs.map (·.1))) (ca : Bool) (hca : t ≠ .srkTableHab → ∀ kc ∈ kcs, kc.2 = ca) :
+    pathRot c t.name kcs = .ok (rotkhCa c t kcs) := by
+  have hmap : (∀ kc ∈ kcs, kc.2 = ca) → (kcs.map (·.1)).map (fun k => (k, ca)) = kcs := by
+    intro hh
+    rw [List.map_map]
+    conv => rhs; rw [← List.map_id kcs]
+    apply List.map_congr_left
+    intro kc hkc
+    simp only [Function.comp_apply, id_eq]
+    rw [← hh kc hkc]
+  rcases ht with rfl | rfl | rfl
+  · have ok := ahabOK_of_keysOK _ (Or.inl rfl) _ h ca
+    rw [hmap (hca (by decide))] at ok
+    rw [pathRot_ahab]; exact path_ahab c _ ok
+  · have ok := ahabOK_of_keysOK _ (Or.inr rfl) _ h ca
+    rw [hmap (hca (by decide))] at ok
+    rw [pathRot_ahabV2]; exact path_ahabV2 c hc _ ok
+  · rw [pathRot_hab]
+    apply path_hab
+    intro kc hkc
+    simp only [KeysOK, keysOK, Bool.and_eq_true] at h
+    exact List.all_eq_true.mp h.1 kc.1 (List.mem_map.mpr ⟨kc, hkc, rfl⟩)
+
+/-- for EVERY (family, revision) row of the database that has a root-key hash (generated table, 127 rows): its `rot_type` string names one
+    of the five documented constructions, and `Rot(family, revision, keys).calculate_hash()` returns that construction's value of the
+    ordered key list - the value is a function of (rot type, key sequence) alone -/
+theorem rot_rows_dispatch_eq_spec (hc : CryptoLaws c) :
+    ∀ r ∈ Gen.rotRows, r.rotType ≠ "cert_block_x" →
+      ∃ t : RotType, RotType.ofName? r.rotType = some t ∧ t.name = r.rotType ∧
+        ∀ ks, KeysOK t ks → pathRot c r.rotType (ks.map fun k => (k, false)) = .ok (Spec.rotkh c t ks) := by
+  intro r hr hx
+  obtain ⟨_, hk⟩ := rot_rows_known r hr
+  obtain ⟨ht, _⟩ := hk hx
+  obtain ⟨t, ht⟩ := Option.isSome_iff_exists.mp ht
+  have hn := rotType_ofName_name _ _ ht
+  refine ⟨t, ht, hn, fun ks hks => ?_⟩
+  rw [← hn]; exact path_rot_eq_spec c hc t ks hks
+
+/-- non-vacuity: a HAB table of a P-521 key flagged CA and a P-256 key without the flag -/
+example : KeysOK .srkTableHab ([(eccEx' .p521 3, true), (eccEx' .p256 1, false)].map (·.1)) := by decide
 
 /-! ## 3. Corollaries: independence of signer / ISK / used index, agreement of the tool paths -/
 
@@ -560,6 +628,62 @@ theorem rom_refuses_other_key_list (hc : CryptoLaws c) (ks ks' : List Key) (h : 
     (hcalc : rkrCalculate c true ks' used = .ok r') (x : Sb31.Rom.CertInfo × List Sb31.Rom.SigOb)
     (hacc : Sb31.Rom.romCert c (Spec.rotkh c .certBlock21 ks) (bytesV21 ⟨2, 1, r', none⟩) = .ok x) : ks' = ks ∨ Crypto.Break c :=
   rom_refuses_other_keys c hc ks ks' h h' hl used hu r' hcalc x hacc
+
+/-! ## 6f. Acceptance of ARBITRARY bytes: what a successful parse says about its input (phase 3) -/
+
+/-- ISK certificate lite / certificate block Vx, ANY input of at least 136 bytes (not only exported certificates): if the parser accepts `b`,
+    the parsed certificate is well formed, re-exporting it gives `magic ‖ version ‖ b[4:136]` - i.e. exactly `b[:136]` when `b` starts with the
+    magic and version words - and parsing that canonical form gives the same certificate (the parser is injective on canonical forms) -/
+theorem isk_lite_parse_canonical (pointOk : Bytes → Bool) (b : Bytes) (i : IskLite) (h : liteParse pointOk b = .ok i) (hl : 136 ≤ b.length) :
+    WFlite pointOk i ∧
+    liteExport i = .ok (leEnc 2 0x4D43 ++ leEnc 2 1 ++ (b.take 136).drop 4) ∧
+    (b.take 4 = leEnc 2 0x4D43 ++ leEnc 2 1 → liteExport i = .ok (b.take 136)) ∧
+    ∀ rest, liteParse pointOk (leEnc 2 0x4D43 ++ leEnc 2 1 ++ (b.take 136).drop 4 ++ rest) = .ok i := by
+  obtain ⟨wf, e⟩ := liteParse_inv pointOk b i h hl
+  have hc := liteParse_canonical pointOk b i h hl
+  refine ⟨wf, hc, fun h4 => ?_, fun rest => ?_⟩
+  · rw [hc, ← h4]
+    have : (b.take 136).take 4 = b.take 4 := by rw [List.take_take]; congr 1
+    rw [← this, List.take_append_drop]
+  · have := liteParse_export pointOk i wf rest
+    rw [liteBytes, ← e] at *
+    simpa only [List.append_assoc] using this
+
+set_option maxRecDepth 20000 in
+/-- the plain statement `parse b = ok i → export i = b` is FALSE for this format: the parser does not look at the magic / version words
+    (136 zero bytes are accepted whenever the key check passes; the export starts with 43 4D 01 00).  Full statement kept for the record:
+    `∀ b i, liteParse pointOk b = .ok i → liteExport i = .ok b` - missing hypothesis: `b.take 4 = magic ‖ version` and `b.length = 136`. -/
+theorem isk_lite_parse_export_refuted :
+    ∃ (b : Bytes) (i : IskLite), liteParse (fun _ => true) b = .ok i ∧ b.length = 136 ∧ liteExport i ≠ .ok b := by
+  have hp : liteParse (fun _ => true) (List.replicate 136 0) = .ok ⟨0, List.replicate 64 0, List.replicate 64 0⟩ := rfl
+  refine ⟨List.replicate 136 0, ⟨0, List.replicate 64 0, List.replicate 64 0⟩, hp, List.length_replicate, ?_⟩
+  rw [liteParse_canonical _ _ _ hp (by simp)]
+  intro h
+  injection h with h
+  have := congrArg (fun l => l.head?) h
+  revert this; decide
+
+/-! ## 6g. Certificate block v1 inside an SB 2.1 file: what the loader model of C04 reads (phase 3) -/
+
+/-- SB 2.1 (`Spec/Sb2Rom.lean`, the loader side of C04, written independently with its own constants): wherever the exported block sits in
+    the file, the loader derives from the block's own header exactly the exported length (this is C04's hypothesis `certBlockOk` when the block
+    stands alone), and the RKH table it reads at `offset + 32 + certificate table length` hashes to the documented fuse value
+    `Spec.rotkh cert_block_1 ks` of the keys that were given to `CertBlockV1.set_root_key_hash` - the same table and value the MBI ROM model of
+    C02 uses (`rom_accepts_built_v1`) -/
+theorem rom_sb21_reads_built_v1 (hc : CryptoLaws c) (ks : List Key) (h : KeysOK .certBlock1 ks) (certOk : Bytes → Bool)
+    (cb : CertBlockV1) (wf : WFv1 certOk cb) (ha : cb.alignment = 16) (hrkh : certBlockV1Rkh c ks = .ok cb.rkh) (pre rest : Bytes) :
+    Sb2.Rom.certBlockLen (pre ++ (bytesV1 cb ++ rest)) pre.length = .ok (bytesV1 cb).length ∧
+    Sb2.Rom.certBlockLen (bytesV1 cb) 0 = .ok (bytesV1 cb).length ∧
+    Sb2.Rom.slice (pre ++ (bytesV1 cb ++ rest)) (pre.length + 32 + certTableLength cb.certs) 128 = (pad4 cb.rkh).flatten ∧
+    c.hash .sha256 (Sb2.Rom.slice (pre ++ (bytesV1 cb ++ rest)) (pre.length + 32 + certTableLength cb.certs) 128) =
+      Spec.rotkh c .certBlock1 ks := by
+  obtain ⟨h1, h2⟩ := sb21_rom_reads_exportV1 certOk cb wf ha pre rest
+  have h0 := (sb21_rom_reads_exportV1 certOk cb wf ha [] []).1
+  simp only [List.nil_append, List.append_nil, List.length_nil] at h0
+  have e2 : Sb2.Rom.Spec.certHeaderSize = 32 := rfl
+  have e3 : Sb2.Rom.Spec.rkhTableSize = 128 := rfl
+  rw [e2, e3] at h2
+  exact ⟨h1, h0, h2, by rw [h2]; exact rkhTable_hash_eq_rotkh c hc ks h cb.rkh hrkh⟩
 
 /-! ## 7. Non-vacuity and sanity examples -/
 
